@@ -95,7 +95,7 @@ func init() {
 				cse.TimeoutMS = 60000
 				cs = append(cs, cse)
 			}
-			for i, s := range []string{"limit-tick", "trigger-after-ctx-check", "take-superseded", "take-stop", "take-limit", "stop-before-drain"} {
+			for i, s := range []string{"limit-tick", "trigger-after-ctx-check", "take-superseded", "take-stop", "take-limit", "stop-before-drain", "tick-through-limit-shutdown"} {
 				for rep := 0; rep < 2; rep++ {
 					cse := core.MkCase("C02", "hook", i*2+rep, seed, c02HookParams{Schedule: s})
 					cse.Race = rep == 0
@@ -487,6 +487,49 @@ func c02Hook(c *core.Case, o *core.Outcome) {
 		}
 		pool.Trigger(wctx, 7)
 		pk.Release()
+		S, D = 2, 0
+	case "tick-through-limit-shutdown":
+		// N=2, one worker: a tick of 4 has passed its context check when the limit is reached; it is held while
+		// the whole limit shutdown (discard, cancel, stop drain) completes and only then reaches the pool. Its
+		// requests cannot start solely because of the limit: not dropped.
+		pk := hc.ParkNth("pool.trigger.afterCtxCheck", 2)
+		hc.Install()
+		defer hc.Uninstall()
+		env = engine.NewPoolEnv("hook", g.scenario(), 2, nil)
+		pool := env.Manager.NewTriggerPool(1)
+		wctx := pool.Start(ctx)
+		pool.Trigger(wctx, 3)
+		if !started(1) {
+			o.Inconc("schedule did not form: first body")
+			return
+		}
+		g.release(1)
+		if !started(2) {
+			o.Inconc("schedule did not form: second body")
+			return
+		}
+		tdone := make(chan struct{})
+		go func() { pool.Trigger(wctx, 4); close(tdone) }()
+		if !arrived(pk) {
+			o.Inconc("schedule did not form: Trigger never reached the hook")
+			return
+		}
+		g.release(1) // the worker asks for id 3 and is refused: the limit shutdown runs to its end
+		if !waitUntil(8*time.Second, func() bool { return wctx.Err() != nil }) {
+			o.Inconc("schedule did not form: limit not noticed")
+			pk.Release()
+			return
+		}
+		select {
+		case <-env.Manager.WaitForCompletion():
+		case <-time.After(8 * time.Second):
+			o.Inconc("schedule did not form: pool did not complete after the limit")
+			pk.Release()
+			return
+		}
+		pk.Release()
+		<-tdone
+		time.Sleep(20 * time.Millisecond)
 		S, D = 2, 0
 	case "trigger-after-ctx-check":
 		pk := hc.ParkNth("pool.trigger.afterCtxCheck", 2)
